@@ -242,7 +242,36 @@ fn macro_node(mac: &Macro, a: &[Attribute]) -> Value {
     Value::Object(m)
 }
 
+fn expr_attrs(e: &Expr) -> &[Attribute] {
+    match e {
+        Expr::Array(x) => &x.attrs, Expr::Assign(x) => &x.attrs, Expr::Async(x) => &x.attrs, Expr::Await(x) => &x.attrs,
+        Expr::Binary(x) => &x.attrs, Expr::Block(x) => &x.attrs, Expr::Break(x) => &x.attrs, Expr::Call(x) => &x.attrs,
+        Expr::Cast(x) => &x.attrs, Expr::Closure(x) => &x.attrs, Expr::Const(x) => &x.attrs, Expr::Continue(x) => &x.attrs,
+        Expr::Field(x) => &x.attrs, Expr::ForLoop(x) => &x.attrs, Expr::Group(x) => &x.attrs, Expr::If(x) => &x.attrs,
+        Expr::Index(x) => &x.attrs, Expr::Infer(x) => &x.attrs, Expr::Let(x) => &x.attrs, Expr::Lit(x) => &x.attrs,
+        Expr::Loop(x) => &x.attrs, Expr::Macro(x) => &x.attrs, Expr::Match(x) => &x.attrs, Expr::MethodCall(x) => &x.attrs,
+        Expr::Paren(x) => &x.attrs, Expr::Path(x) => &x.attrs, Expr::Range(x) => &x.attrs, Expr::Reference(x) => &x.attrs,
+        Expr::Repeat(x) => &x.attrs, Expr::Return(x) => &x.attrs, Expr::Struct(x) => &x.attrs, Expr::Try(x) => &x.attrs,
+        Expr::TryBlock(x) => &x.attrs, Expr::Tuple(x) => &x.attrs, Expr::Unary(x) => &x.attrs, Expr::Unsafe(x) => &x.attrs,
+        Expr::While(x) => &x.attrs, Expr::Yield(x) => &x.attrs,
+        _ => &[],
+    }
+}
+
 fn expr(e: &Expr) -> Value {
+    let mut v = expr_inner(e);
+    let a = expr_attrs(e);
+    if !a.is_empty() {
+        if let Value::Object(o) = &mut v {
+            if !o.contains_key("attrs") || o["attrs"].as_array().map(|x| x.is_empty()).unwrap_or(true) {
+                o.insert("attrs".into(), attrs(a));
+            }
+        }
+    }
+    v
+}
+
+fn expr_inner(e: &Expr) -> Value {
     let mut m = node("?", e.span());
     macro_rules! k {
         ($n:expr) => {
